@@ -58,22 +58,25 @@ Lemma TB_inj s s' : TB s = TB s' -> s = s'.
 Proof. congruence. Qed.
 Lemma list3_inj {A} (a b c a' b' c' : A) : [a; b; c] = [a'; b'; c'] -> a = a' /\ b = b' /\ c = c'.
 Proof. intros H. inversion H. auto. Qed.
-Lemma list2_inj {A} (a b a' b' : A) : [a; b] = [a'; b'] -> a = a' /\ b = b'.
+Lemma list1_inj {A} (a a' : A) : [a] = [a'] -> a = a'.
 Proof. intros H. inversion H. auto. Qed.
-Lemma list6_inj {A} (a b c d e f a' b' c' d' e' f' : A) :
-  [a; b; c; d; e; f] = [a'; b'; c'; d'; e'; f'] -> a = a' /\ b = b' /\ c = c' /\ d = d' /\ e = e' /\ f = f'.
+Lemma list4_inj {A} (a b c d a' b' c' d' : A) : [a; b; c; d] = [a'; b'; c'; d'] -> a = a' /\ b = b' /\ c = c' /\ d = d'.
+Proof. intros H. inversion H. auto. Qed.
+Lemma list7_inj {A} (a b c d e f g a' b' c' d' e' f' g' : A) :
+  [a; b; c; d; e; f; g] = [a'; b'; c'; d'; e'; f'; g'] ->
+  a = a' /\ b = b' /\ c = c' /\ d = d' /\ e = e' /\ f = f' /\ g = g'.
 Proof. intros H. inversion H. repeat split; assumption. Qed.
 
-(* completeness of the class list: whatever reaches the files is either hashed or one of the two
-   unhashed components (events, line numbers under visualize_deps) *)
+(* completeness of the class list: whatever reaches the files is either hashed or the one unhashed
+   component (command line numbers under visualize_deps) *)
 Theorem fp_sound_modulo_unhashed : forall w p c w' p' c',
   fp w p c = fp w' p' c' -> unhashed w p c = unhashed w' p' c' -> files w p c = files w' p' c'.
 Proof. intros w p c w' p' c' Hfp Hun. unfold fp in Hfp. unfold unhashed in Hun.
   set (a := analyse w p) in *. set (a' := analyse w' p') in *.
-  apply TN_inj, list3_inj in Hfp. destruct Hfp as (Hc & Hs & Hg).
-  apply list2_inj in Hun. destruct Hun as (U6 & U8).
-  pose proof Hg as Hg'. unfold fp_cfg in Hg'. apply TN_inj, list6_inj in Hg'.
-  destruct Hg' as (Hlib & Hpriv & Hmaps & Hpc & Hfc & Hviz). apply TA_inj in Hlib. apply TB_inj in Hviz.
+  apply TN_inj, list4_inj in Hfp. destruct Hfp as (Hc & Hs & Hg & U6).
+  apply list1_inj in Hun. rename Hun into U8.
+  pose proof Hg as Hg'. unfold fp_cfg in Hg'. apply TN_inj, list7_inj in Hg'.
+  destruct Hg' as (Hlib & Hpriv & Hmaps & Hpc & Hfc & Hviz & Hpp). apply TA_inj in Hlib. apply TB_inj in Hviz.
   assert (Hev : has_events a = has_events a').
   { unfold u_events in U6. apply TN_inj in U6. unfold has_events.
     destruct (a_events a), (a_events a'); cbn [map] in U6; try discriminate; reflexivity. }
@@ -82,23 +85,17 @@ Proof. intros w p c w' p' c' Hfp Hun. unfold fp in Hfp. unfold unhashed in Hun.
 
 Notation InvW_c := (InvW project config sched fname tree tree files fp).
 Notation up_to_date_c := (up_to_date project config sched fname tree tree files).
-Notation sound_hit_c := (sound_hit project config sched fname tree tree tree_eqb files fp has_commands g_force false).
+Notation sound_hit_c := (sound_hit project config sched fname tree tree tree_eqb files fp has_commands g_force true).
 
 Lemma kf_nil_sound_hit w sg : kf_C08 w sg = [] -> sound_hit_c w sg.
 Proof. destruct sg as [st g]. intros Hk g0 Hg Hca Hc Hf Hh. cbn [fst snd] in *. subst g.
   unfold kf_C08 in Hk. rewrite Hc in Hk. unfold effective_force in Hf. cbn [orb] in Hf. rewrite Hf in Hk.
   unfold cache_hit_c in Hk. rewrite Hh in Hk. cbn [negb andb] in Hk.
-  apply app_eq_nil in Hk. destruct Hk as [Hu Hl].
-  destruct g0 as [[w0 p0] c0]. unfold kf_C08_unhashed in Hu. unfold kf_C08_file_loss in Hl.
-  cbn [gfiles_of gfp_of] in *.
-  assert (Hfp : fp w0 p0 c0 = fp w (s_src st) (s_cfg st)).
-  { unfold cache_hit in Hh. rewrite Hca in Hh.
-    destruct (tree_eqb (fp w0 p0 c0) (fp w (s_src st) (s_cfg st))) eqn:E; [|discriminate].
-    apply tree_eqb_spec. exact E. }
-  split.
-  - apply fp_sound_modulo_unhashed; [exact Hfp|].
-    apply tree_eqb_spec in Hfp. rewrite Hfp in Hu. apply app_eq_nil in Hu. destruct Hu as [H6 H8].
-    unfold unhashed. f_equal; [|f_equal].
-    + destruct (tree_eqb (u_events _) (u_events _)) eqn:E in H6; [|discriminate]. apply tree_eqb_spec. exact E.
-    + destruct (tree_eqb (u_lines _ _) (u_lines _ _)) eqn:E in H8; [|discriminate]. apply tree_eqb_spec. exact E.
-  - unfold present. destruct (forallb _ (files w0 p0 c0)) eqn:E in Hl; [|discriminate]. exact E. Qed.
+  destruct g0 as [[w0 p0] c0]. unfold kf_C08_unhashed in Hk. cbn [gfiles_of gfp_of] in *.
+  unfold cache_hit in Hh. rewrite Hca in Hh.
+  destruct (tree_eqb (fp w0 p0 c0) (fp w (s_src st) (s_cfg st))) eqn:E; [|discriminate].
+  apply tree_eqb_spec in E.
+  assert (Hfiles : files w0 p0 c0 = files w (s_src st) (s_cfg st)).
+  { apply fp_sound_modulo_unhashed; [exact E|]. unfold unhashed. f_equal.
+    destruct (tree_eqb (u_lines _ _) (u_lines _ _)) eqn:E8 in Hk; [|discriminate]. apply tree_eqb_spec. exact E8. }
+  split; [exact Hfiles|]. rewrite Hfiles. exact Hh. Qed.
